@@ -9,7 +9,7 @@ CLAIMED = {
          "Model hand-written; tie = differential runs on generated histories; lengths < 2^32. Profile C01a runs the convenience API (SetAny/GetAny/DeleteAny/ExistAny over every argument type of toBa, Set, Name, Stats) against Model/AnyKey.lean; the priority Set draws is unspecified and is read back, not compared."),
  "C02": ("Lean proof: flush_then_open + history refinement Machine.reopen_shows_last_flush; correspondence on file images",
          "For every history of collection ops, Set/Delete, Flush and re-open (to any depth), re-opening shows exactly the state at the last Flush (theorem reopen_is_last_flush; side conditions: plain names, sizes < 2^32). The Go package and the model are compared on full state dumps and byte-exact file images after flushes and re-opens.",
-         "The history theorem's side condition excludes collection names that need JSON escapes; the root-record round trip for such names is C14.root_roundtrip, their behaviour in histories is covered by the correspondence runs (the name pool contains them)."),
+         "Collection names that are not valid UTF-8 cannot be carried by the JSON root record (defect F18, repaired: Flush refuses them; corpus/F18; the model's flush has the same guard and profiles C02/C12 generate such names). The history theorem's side condition excludes collection names that need JSON escapes; the root-record round trip for such names is C14.root_roundtrip, their behaviour in histories is covered by the correspondence runs (the name pool contains them)."),
  "C06": ("Lean proof: visit = foldUntil over filtered in-order list with depths; correspondence",
          "ascend_exact/descend_exact: for every search tree, target, visitor and state, the visit delivers exactly the filtered in-order items with true depths and stops after the first rejection. Compared against the package for both directions, value modes, targets and stop positions in all cache states.",
          "Iterators are compared through the c18 stream; the C12n profile (no load-time comparator callback, SetCollection installs the comparator after every open) runs here too; so does the `Chain` step (a treap made a path of 66-80 nodes by caller-chosen priorities)."),
@@ -42,7 +42,7 @@ CLAIMED = {
          "Soundness of the translator's call graph (closures, method values, interface dispatch, json reflection edges) is trusted."),
  "C11": ("Lean proof: copyTo_contents for every flushEvery, independence of flushEvery, destination-only writes; correspondence",
          "copy_equivalent holds for every source and every flushEvery; copy_holds_only_live_item_records for every flushEvery > 0; the package's CopyTo (writable stores, snapshots, evicted and re-opened sources, fe in {-1,0,1,2,3,5,100}) is compared on destination contents, destination image and re-opened destination, source contents and source write log.",
-         "'holds only live data (no superseded item versions)' is copy_holds_only_live_item_records: on the model, for fe > 0 and well-formed sources, the item records written are exactly (as a multiset) the destination's live (item, location) pairs, pairwise disjoint and inside the file; node records are superseded by periodic flushes and the theorem does not say otherwise. It reaches the code through the byte-exact comparison of destination images with the model's in the stream. The generator's `Chain` step copies sources whose tree is a path of 66-80 nodes (caller-chosen priorities)."),
+         "'holds only live data (no superseded item versions)' is copy_holds_only_live_item_records: on the model, for fe > 0 and well-formed sources, the item records written are exactly (as a multiset) the destination's live (item, location) pairs, pairwise disjoint and inside the file; node records are superseded by periodic flushes and the theorem does not say otherwise. It reaches the code through the byte-exact comparison of destination images with the model's in the stream. The generator's `Chain` step copies sources whose tree is a path of 66-80 nodes (caller-chosen priorities). CopyTo of a store holding a collection whose name is not valid UTF-8 (the destination's Flush refuses since F18) is not generated."),
  "C14": ("Lean proof: codec round trips, root record, flush_then_open with the independent decoder; decide on regenerated constants; decoder run on the implementation's bytes",
          "Item/node/root round trips, decode_flushed_file, coherent (children-before-parent) layout; obligations on constants regenerated from /repo (version, magics, header offsets, record lengths, JSON tags, byte order). Every flushed image of the package is decoded by the Lean codec and compared with what the package reads back, and byte-compared with the model's image.",
          "root_roundtrip covers every collection name (Go's JSON escaping included); root_roundtrip_partial is the earlier escape-free statement. The profile also fills 70-260 items into one flush."),
